@@ -251,6 +251,8 @@ struct Scenario {
     prefix: u64,
     a_len: u64,
     b_len: u64,
+    /// the peer stored the node's branch first and reorganised onto its own chain afterwards
+    peer_reorged: bool,
 }
 
 /// chains sharing `prefix` blocks after genesis, the node with `a_len` own blocks, the peer with
@@ -276,7 +278,7 @@ async fn scenario(rng: &mut Rng, gp: u64, prefix: u64, a_len: u64, b_len: u64) -
         let spec = BlockSpec { gap: 2 * params.heartbeat, txs, with_gt: id % 2 == 0, gt_miner: 3 };
         peer_tip = b.extend(rng, &peer_tip, &spec).await.ok()?;
     }
-    Some(Scenario { b, node_tip, peer_tip, prefix, a_len, b_len })
+    Some(Scenario { b, node_tip, peer_tip, prefix, a_len, b_len, peer_reorged: false })
 }
 
 /// would a node sitting on `node_tip` move to `peer_tip` if it simply received the peer's blocks
@@ -304,8 +306,16 @@ async fn new_pair(sc: &Scenario, loaded: bool, batch: u64) -> Option<Pair> {
     for h in sc.b.store.ancestors(&sc.node_tip) {
         a.add_block_direct(&sc.b.store.get(&h).bytes.clone()).await;
     }
+    if sc.peer_reorged {
+        for h in sc.b.store.ancestors(&sc.node_tip) {
+            p.add_block_direct(&sc.b.store.get(&h).bytes.clone()).await;
+        }
+    }
     for h in sc.b.store.ancestors(&sc.peer_tip) {
         p.add_block_direct(&sc.b.store.get(&h).bytes.clone()).await;
+    }
+    if p.tip().await.1 != sc.peer_tip {
+        return None;
     }
     while a.rx_router.try_recv().is_ok() {}
     while p.rx_router.try_recv().is_ok() {}
@@ -319,6 +329,41 @@ async fn new_pair(sc: &Scenario, loaded: bool, batch: u64) -> Option<Pair> {
     Some(pair)
 }
 
+/// the estimate of the real chains of a scenario, in both directions, against the fork point read
+/// off the two longest chains
+async fn estimate_check(sc: &Scenario, rep: &mut Report) {
+    let pair = match new_pair(sc, true, 1).await {
+        Some(p) => p,
+        None => return,
+    };
+    let a = pair.a.chain.read().await;
+    let p = pair.p.chain.read().await;
+    let fp = true_fork_point(&a, &p);
+    for (resp, req, role) in [(&*p, &*a, "peer-answers-node"), (&*a, &*p, "node-answers-peer")] {
+        let req_id = req.get_latest_block_id();
+        let fid = match crate::panics::catch(|| req.generate_fork_id(req_id)) {
+            Ok(f) => f.unwrap_or([0; 32]),
+            Err(_) => continue,
+        };
+        let est = match crate::panics::catch(|| resp.generate_last_shared_ancestor(req_id, fid)) {
+            Ok(e) => e,
+            Err(_) => continue,
+        };
+        rep.eval();
+        rep.count("system_estimates");
+        if sc.peer_reorged {
+            rep.count("system_estimates.responder-stores-a-stale-branch");
+        }
+        if est > fp {
+            rep.violation(
+                "C15|clause=shared-ancestor-estimate-after-fork-point",
+                &format!("real chains sharing blocks 1..{} (responder length {}, requester length {}, peer stores the node's branch as a stale fork: {}): {} estimates the last shared ancestor as {} and would start streaming after the fork point", fp, resp.get_latest_block_id(), req_id, sc.peer_reorged, role, est),
+                json!({"kind":"system-estimate","gp":sc.b.params.gp,"prefix":sc.prefix,"node_blocks":sc.a_len,"peer_blocks":sc.b_len,"peer_reorged":sc.peer_reorged,"role":role}),
+            );
+        }
+    }
+}
+
 #[allow(clippy::too_many_arguments)]
 async fn run_schedule(sc: &Scenario, loaded: bool, batch: u64, choices: Option<&[usize]>, rng: &mut Rng, rep: &mut Report, label: &str) -> Option<Vec<usize>> {
     let mut pair = new_pair(sc, loaded, batch).await?;
@@ -327,7 +372,7 @@ async fn run_schedule(sc: &Scenario, loaded: bool, batch: u64, choices: Option<&
     let mut taken = vec![];
     let mut steps = 0u64;
     let mut ticks = 0u64;
-    let witness = |pair: &Pair| json!({"kind":"sync","gp":sc.b.params.gp,"prefix":sc.prefix,"node_blocks":sc.a_len,"peer_blocks":sc.b_len,"loaded":loaded,"batch":batch,"trace":pair.trace});
+    let witness = |pair: &Pair| json!({"kind":"sync","gp":sc.b.params.gp,"prefix":sc.prefix,"node_blocks":sc.a_len,"peer_blocks":sc.b_len,"loaded":loaded,"batch":batch,"peer_reorged":sc.peer_reorged,"trace":pair.trace});
     rep.eval();
     rep.count("sync_runs");
     rep.count(if loaded { "sync_runs.loaded" } else { "sync_runs.not-loaded" });
@@ -426,10 +471,15 @@ pub async fn run(ctx: &Ctx, rep: &mut Report) {
         }
     }
     // ---- system part
-    let shapes: Vec<(u64, u64, u64)> = vec![(0, 0, 3), (2, 0, 4), (3, 1, 4), (1, 2, 5), (4, 0, 8), (6, 2, 9), (0, 1, 6), (9, 0, 12), (12, 3, 14), (5, 0, 22)];
+    // (prefix, node blocks, peer blocks, peer stored the node's branch before its own)
+    let shapes: Vec<(u64, u64, u64, bool)> = vec![
+        (0, 0, 3, false), (2, 0, 4, false), (3, 1, 4, false), (1, 2, 5, true), (4, 0, 8, false), (6, 2, 9, false), (0, 1, 6, false), (9, 0, 12, false),
+        (5, 4, 10, false), (5, 7, 12, true),
+        (12, 3, 14, false), (5, 0, 22, false), (8, 13, 19, true), (3, 5, 11, true),
+    ];
     let mut case = 0u64;
-    for (si, (prefix, a_len, b_len)) in shapes.iter().enumerate() {
-        if !ctx.thorough && si >= 8 {
+    for (si, (prefix, a_len, b_len, reorged)) in shapes.iter().enumerate() {
+        if !ctx.thorough && si >= 10 {
             break;
         }
         for gp in [30u64, 60] {
@@ -438,7 +488,10 @@ pub async fn run(ctx: &Ctx, rep: &mut Report) {
                 continue;
             }
             let sc = match scenario(&mut rng, gp, *prefix, *a_len, *b_len).await {
-                Some(s) => s,
+                Some(mut s) => {
+                    s.peer_reorged = *reorged;
+                    s
+                }
                 None => {
                     rep.count("sync_scenarios_not_built");
                     continue;
@@ -449,9 +502,13 @@ pub async fn run(ctx: &Ctx, rep: &mut Report) {
                 continue;
             }
             rep.count("sync_scenarios");
+            if sc.peer_reorged {
+                rep.count("sync_scenarios.peer-reorganised-off-the-node-branch");
+            }
+            estimate_check(&sc, rep).await;
             for loaded in [true, false] {
                 for batch in [1u64, 3, 10] {
-                    let label = format!("prefix={} node+{} peer+{} gp={} loaded={} batch={}", prefix, a_len, b_len, gp, loaded, batch);
+                    let label = format!("prefix={} node+{} peer+{} gp={} loaded={} batch={} peer-reorged={}", prefix, a_len, b_len, gp, loaded, batch, reorged);
                     // FIFO-ish schedule (always the first enabled action), then random schedules
                     let zeros = vec![0usize; 4000];
                     run_schedule(&sc, loaded, batch, Some(&zeros), &mut rng, rep, &label).await;
